@@ -165,6 +165,25 @@ Theorem C09_scion_any_packet_meets_oracle : forall cp lp src h payload e,
 Proof. exact model_meets_oracle_scion_any. Qed.
 Print Assumptions C09_scion_any_packet_meets_oracle.
 
+(* a request whose SCION packet authenticator does not verify (e_spao_fail) gets no reply; the
+   hypothesis e_spao_fail e = false of the theorems above is dropped *)
+Theorem C09_scion_authenticator_meets_oracle : forall cp lp src h payload e,
+  bytes_ok payload -> env_ok payload e ->
+  C09_scion_auth_ok (e_spao_fail e) src cp lp h payload (e_nts_ok e) (e_path_rev e)
+    (scion_replies src (scion_decision_of cp lp h payload e)) = true.
+Proof. exact model_meets_oracle_scion_auth. Qed.
+Print Assumptions C09_scion_authenticator_meets_oracle.
+
+(* the reply belongs to its request (both listeners share ntp_decision): its origin timestamp is
+   the request's transmit timestamp, or the request's receive timestamp in interleaved mode; a
+   48-byte request gets a 48-byte reply, an NTS request a reply with extension fields (the NTS
+   code never emits an empty extension for an authenticated request) *)
+Theorem C09_reply_pairs_with_request : forall b e out, bytes_ok b ->
+  (e_nts_ok e = true -> e_nts_ext e <> []) ->
+  ntp_decision b e = Reply out -> reply_pairs_ok b out = true.
+Proof. exact reply_pairs. Qed.
+Print Assumptions C09_reply_pairs_with_request.
+
 (* ---- the same for whole histories: every exchange of every history passes the oracle,
         whatever the listener handled before it (the oracle of the "ip" case kind is
         C09_hist_ok over the probe and sentinel exchanges of all steps) ---- *)
